@@ -6,17 +6,17 @@ engine).  E-INPUT: every permutation of the input list."""
 import itertools
 
 from mc import layout
-from mc.core import Acc, Hang, fp_hash, horizon
+from mc.core import Acc, Hang, fp_hash, horizon, labella_globals, purge_labella
 
 ID = "C06"
-RULE = ("E-HIST: every history up to depth 6 (thorough 9) of nodes(S_i) for 4 label sets / re-presenting the same node objects "
+RULE = ("E-HIST: every history up to depth 5 (thorough 8) of nodes(S_i) for 4 label sets / re-presenting the same node objects "
         "reversed or rotated / compute() / set_options(cfg_j) for 4 option dicts / creating and running ANOTHER engine with "
-        "different options (2 variants) on one real Force engine, replayed on fresh "
+        "different options (3 variants, one with the lineSpacing option) / letting another engine lay out the SAME node objects / appending a label to the caller's list on one real Force engine, replayed on fresh "
         "objects, states deduplicated by a fingerprint of the engine + node graph (stubs, aliasing); at every compute() the "
         "label -> (layer, position) map must equal that of a fresh engine with the accumulated options and fresh sorted nodes, "
         "and the engine's node list must still be exactly the caller's labels. E-INPUT: every permutation (n<=3; n=4: 6 of 24 "
         "quick, all thorough) of every label multiset (equal positions => equal widths) x engine configs gives the same map; "
-        "other multisets: same order twice => same result. Non-trivial: a compute() on stale state (after an earlier compute or "
+        "other multisets: same order twice => same result; all 720 orders of three 6-label sets with one-decimal widths whose total sits on the split threshold. Non-trivial: a compute() on stale state (after an earlier compute or "
         "re-presentation) with a displaced label / a permutation that changes the input order of a conflicting set.")
 ASSUMPTIONS = ["labels are compared as multisets of (ideal position, width) -> (layer, position)",
                "label sets in the history alphabet satisfy the statement's proviso (equal position => equal width)"]
@@ -24,13 +24,14 @@ REQUIRED_COUNTERS = ("computes_checked", "recomputes_on_stale_state", "perm_case
 
 SETS = [[(0, 4), (10, 4)], [(1, 4), (1.5, 4), (2, 1)], [(0, 4), (1, 4), (1, 4), (2.5, 1), (6, 4)], [(3, 4), (3, 4), (3, 4), (3.5, 1)]]
 CFG = [{"maxPos": 10}, {"maxPos": None}, {"algorithm": "simple", "maxPos": 9}, {"nodeSpacing": 1.5, "stubWidth": 2}]
-OTHER = [{"maxPos": 7, "density": 0.4, "nodeSpacing": 0, "stubWidth": 0, "algorithm": "simple"}, {"algorithm": "none", "maxPos": 50}]
+OTHER = [{"maxPos": 7, "density": 0.4, "nodeSpacing": 0, "stubWidth": 0, "algorithm": "simple"}, {"algorithm": "none", "maxPos": 50},
+         {"lineSpacing": 9, "maxPos": 10}]
 OPS = ([("N", i) for i in range(len(SETS))] + [("P", "rev"), ("P", "rot"), ("C", None)] + [("O", j) for j in range(len(CFG))]
-       + [("E", j) for j in range(len(OTHER))])
+       + [("E", j) for j in range(len(OTHER))] + [("X", 0), ("X", 2), ("A", None)])
 
 
 def bounds(tier, seed):
-    return {"history_depth": 6 if tier == "quick" else 9, "label_sets": SETS + [_seed_set(seed)], "configs": CFG,
+    return {"history_depth": 5 if tier == "quick" else 8, "label_sets": SETS + [_seed_set(seed)], "configs": CFG,
             "permutations": "n<=3 all; n=4: %s" % ("6 of 24, 5 configs" if tier == "quick" else "all 24, all configs")}
 
 
@@ -51,6 +52,17 @@ def build(hist, sets):
             g.nodes([Node(p, w) for p, w in sets[1]])
             g.compute()
             others.append(g)
+            continue
+        if op == "X":  # another engine lays out the SAME node objects (they come back with its stubs/positions)
+            if nodes:
+                g = Force(dict(OTHER[a]))
+                g.nodes(nodes)
+                g.compute()
+                others.append(g)
+            continue
+        if op == "A":  # the caller appends a label to the list it handed to nodes()
+            if nodes and not any(n.idealPos == 7.5 for n in nodes):
+                nodes.append(Node(7.5, 4))
             continue
         if op == "N":
             nodes = [Node(p, w) for p, w in sets[a]]
@@ -81,14 +93,47 @@ def reference(labels, acc):
     return result(ns)
 
 
-def check_history(hist, sets):
+_PRISTINE = [None]
+_REFS = {}
+
+
+def _load():
+    import labella.distributor, labella.force, labella.node, labella.removeOverlap, labella.vpsc  # noqa: F401
+
+
+def ensure_pristine(acc=None):
+    """Every replay starts from the library's import-time module state.  Cheap test (fingerprint of all labella
+    module/class globals); only if a previous execution changed that state are the modules purged and re-imported."""
+    if _PRISTINE[0] is None:
+        purge_labella()
+        _load()
+        _PRISTINE[0] = fp_hash(labella_globals())
+        return
+    if fp_hash(labella_globals()) != _PRISTINE[0]:
+        purge_labella()
+        _load()
+        if acc is not None:
+            acc.counters["module_state_was_modified"] += 1
+
+
+def reference_cached(labels, acc_opts):
+    """The fresh-engine layout, computed once per (labels, options) from the pristine module state."""
+    key = (tuple(sorted(labels)), tuple(sorted((k, repr(v)) for k, v in acc_opts.items())))
+    if key not in _REFS:
+        ensure_pristine()
+        _REFS[key] = reference(labels, acc_opts)
+    return _REFS[key]
+
+
+def check_history(hist, sets, counters=None):
     """Judge the last op of hist. -> ((key, reason)|None, (force, nodes)|None)"""
     try:
         with horizon(120.0):
+            ensure_pristine(counters)
             f, nodes, acc, others = build(hist, sets)
             if hist and hist[-1][0] == "C" and nodes:
-                ref = reference([(n.idealPos, n.width) for n in nodes], acc)
                 got = result(nodes)
+                ref = reference_cached([(n.idealPos, n.width) for n in nodes], acc)
                 if got != ref:
                     return ("C06:history-differs", "after %s the layout (pos,width,layer,position) is %r, a fresh engine gives %r"
                             % (fmt(hist), got, ref)), None
@@ -107,17 +152,17 @@ def fmt(hist):
 
 
 def hist_init(tier, seed):
-    return {"ctx": {"sets": SETS[:3] + [_seed_set(seed)] if seed % 2 else SETS}, "roots": [[]], "depth": 6 if tier == "quick" else 9}
+    return {"ctx": {"sets": SETS[:3] + [_seed_set(seed)] if seed % 2 else SETS}, "roots": [[]], "depth": 5 if tier == "quick" else 8}
 
 
 def hist_expand(ctx, h, acc):
     h = [tuple(o) for o in h]
     succ = []
     for oi, op in enumerate(OPS):
-        if op[0] in ("P",) and not any(o[0] == "N" for o in h):
+        if op[0] in ("P", "X", "A") and not any(o[0] == "N" for o in h):
             continue
         nh = h + [op]
-        bad, st = check_history(nh, ctx["sets"])
+        bad, st = check_history(nh, ctx["sets"], acc)
         acc.evals += 1
         acc.trans += 1
         if op[0] == "C" and any(o[0] == "N" for o in h):
@@ -151,9 +196,22 @@ def layout_map(labels, opts, order):
     return result(nodes)
 
 
+# widths with one decimal whose total, with 5 spacings of 3, is exactly the budget 0.85 * 100 "on paper": the split
+# decision is a float sum compared with a threshold and must not depend on the input order
+NONDYADIC = [
+    ([(5, 14.1), (20.5, 13.3), (33, 10.7), (51.25, 12.2), (64, 9.9), (80, 9.8)], {"maxPos": 100}),
+    ([(5, 14.1), (20.5, 13.3), (33, 10.7), (51.25, 12.2), (64, 9.9), (80, 9.9)], {"maxPos": 100}),
+    ([(1, 0.1), (2, 0.2), (3.3, 0.3), (7, 0.7), (9, 1.1), (11, 0.6)], {"maxPos": 20, "density": 0.9, "nodeSpacing": 3}),
+]
+
+
 def plan(tier, seed):
     n = 48 if tier == "quick" else 128
-    return [{"kind": "perm", "tier": tier, "mod": n, "rem": r} for r in range(n)]
+    shards = [{"kind": "perm", "tier": tier, "mod": n, "rem": r} for r in range(n)]
+    for k in range(len(NONDYADIC)):
+        for part in range(6):
+            shards.append({"kind": "nondyadic", "set": k, "first": part})
+    return shards
 
 
 PERM4_QUICK = [(0, 1, 2, 3), (3, 2, 1, 0), (1, 2, 3, 0), (1, 0, 2, 3), (2, 3, 0, 1), (0, 3, 1, 2)]
@@ -161,6 +219,23 @@ PERM4_QUICK = [(0, 1, 2, 3), (3, 2, 1, 0), (1, 2, 3, 0), (1, 0, 2, 3), (2, 3, 0,
 
 def run_shard(shard):
     acc = Acc()
+    if shard["kind"] == "nondyadic":
+        labels, opts = NONDYADIC[shard["set"]]
+        base = layout_map(labels, opts, None)
+        for perm in itertools.permutations(range(len(labels))):
+            if perm[0] != shard["first"]:
+                continue
+            got = layout_map(labels, opts, perm)
+            acc.evals += 1
+            acc.trans += 1
+            acc.counters["perm_cases"] += 1
+            acc.counters["nondyadic_perms"] += 1
+            if got != base:
+                acc.violation({"labels": labels, "opts": opts, "perm": list(perm)}, "C06:order-dependent",
+                              "input order %r gives %r, sorted order gives %r" % (list(perm), got, base), order=(200, shard["set"]))
+        acc.states += 1
+        acc.sample({"labels": labels, "opts": opts, "perm": list(perm)})
+        return acc
     alpha = layout.letters("q", 0)
     quick = shard["tier"] == "quick"
     case = None
